@@ -164,8 +164,10 @@ func cloneValue(rv reflect.Value) reflect.Value {
 		n.Set(c)
 		return n
 	case reflect.Struct:
+		// a clone carries the message - its exported fields - and nothing else: state a tree keeps
+		// in unexported fields (caches, markers) is deliberately NOT copied, so that an encoding of a
+		// clone is a reference that depends on the message only
 		n := reflect.New(rv.Type()).Elem()
-		n.Set(rv) // shallow copy first: carries unexported fields, if a future tree has any
 		for i := 0; i < rv.NumField(); i++ {
 			if !rv.Type().Field(i).IsExported() {
 				continue
@@ -795,8 +797,8 @@ func (g *Gen) fillWithKey(rv reflect.Value, ts *TypeSchema, key *TableKey) {
 			setList(fv, reflect.ValueOf(sl))
 		case "objlist":
 			n := g.count(f.Prefix)
-			if n > 2000 {
-				n = 2000 + g.t.Intn(2) // object lists: keep jumbo sizes to the dedicated jumbo scenario
+			if n > 2000 && g.t.Intn(3) != 0 {
+				n = 2000 + g.t.Intn(2) // mostly keep object lists moderate; one in three keeps its size (up to the prefix maximum)
 			}
 			if n == 0 && g.t.Intn(2) == 0 {
 				break
